@@ -205,18 +205,18 @@ fn finish(r: Result<Result<String, Error>, String>) -> String {
 
 fn run_template(label: &str, which: usize, src: &str) -> String {
     let fuel = if label.starts_with("mut") { Some(50_000) } else { None };
-    finish(guarded(|| {
+    with_tie(finish(guarded(|| {
         let mut env = make_env(fuel);
         let name = if which % 2 == 0 { "case.txt" } else { "case.html" };
         env.add_template_owned(name.to_string(), src.to_string())?;
         let t = env.get_template(name)?;
         let out = t.render(ctx_zoo(which))?;
         Ok(format!("ok:{}:{}", out.len(), hash8(&out)))
-    }))
+    })))
 }
 
 fn run_expr(_label: &str, which: usize, src: &str) -> String {
-    finish(guarded(|| {
+    with_tie(finish(guarded(|| {
         let env = make_env(Some(50_000));
         let ex = env.compile_expression(src)?;
         let v = ex.eval(ctx_zoo(which))?;
@@ -229,7 +229,7 @@ fn run_expr(_label: &str, which: usize, src: &str) -> String {
             }
         }
         Ok(format!("ok:{}:{}:{:?}:{}", s.len(), hash8(&s), n, cnt))
-    }))
+    })))
 }
 
 // ---- kernels -------------------------------------------------------------------------------
@@ -828,6 +828,77 @@ fn stk_tok(i: &minijinja::machinery::Instruction<'_>, prev: Option<&minijinja::m
     }
 }
 
+// ---- dynamic tie of the effect table: heights observed by the `verif_hooks::opstack` hook --------------
+thread_local! {
+    static OPSTACK_EVENTS: std::cell::RefCell<Vec<(u64, u32, usize, String)>> = const { std::cell::RefCell::new(Vec::new()) };
+}
+
+fn install_opstack_hook() {
+    minijinja::verif_hooks::opstack::set_hook(Some(Box::new(|act, pc, height, instr| {
+        OPSTACK_EVENTS.with(|e| {
+            let mut e = e.borrow_mut();
+            if e.len() < 2_000_000 {
+                e.push((act, pc, height, stk_tok(instr, None)));
+            }
+        });
+    })));
+}
+
+/// is the observed transition `(pc, h) → (next, h2)` within one activation what the effect table
+/// (`stk_tok`) and the machine of `MJ/Model/Stk.lean` allow for the instruction?
+fn transition_ok(tok: &str, pc: u32, h: usize, next: u32, h2: usize) -> bool {
+    let f: Vec<&str> = tok.split(':').collect();
+    let n = |i: usize| f.get(i).and_then(|x| x.parse::<i64>().ok()).unwrap_or(0);
+    let (h, h2) = (h as i64, h2 as i64);
+    // straight-line instructions fall through; at the end of a child template that extends another
+    // one the same activation continues at pc 0 of the parent's instructions
+    let fall = next == pc + 1 || next == 0;
+    match f[0] {
+        "e" => fall && h2 == h - n(1) + n(2),
+        "z" | "o" | "ll" | "dup" => fall && h2 == h + 1,
+        "bl" => fall && h2 == h - n(1) + 1,
+        "add" | "bm" | "pl" => fall && h2 == h - 1,
+        "sw" => fall && h2 == h,
+        "bd" => fall && h2 <= h,
+        "ul" => fall && h2 >= h - n(1) + 1,
+        "call" => (fall && h2 == h - n(1) + 1) || (n(3) == 1 && n(1) == 1 && h2 == h),
+        "cdyn" => (fall && h2 <= h) || (n(2) == 1 && h2 == h - 1),
+        "it" => (next == pc + 1 && h2 == h + 1) || (next as i64 == n(1) && h2 == h),
+        "plf" => (fall && h2 == h) || h2 == h || h2 == h + 1,
+        "j" => next as i64 == n(1) && h2 == h,
+        "jf" => (next == pc + 1 || next as i64 == n(1)) && h2 == h - 1,
+        "jfp" | "jtp" => (next == pc + 1 && h2 == h - 1) || (next as i64 == n(1) && h2 == h),
+        "fr" => h2 == h,
+        "ret" => false,
+        _ => false,
+    }
+}
+
+/// checks all transitions recorded since the last call; `None` = consistent
+fn tie_check() -> Option<String> {
+    OPSTACK_EVENTS.with(|e| {
+        let mut e = e.borrow_mut();
+        let mut last: std::collections::HashMap<u64, (u32, usize, String)> = std::collections::HashMap::new();
+        let mut bad = None;
+        for (act, pc, h, tok) in e.drain(..) {
+            if let Some((ppc, ph, ptok)) = last.get(&act) {
+                if bad.is_none() && !transition_ok(ptok, *ppc, *ph, pc, h) {
+                    bad = Some(format!("{}@{}:h{}->{}@h{}", ptok, ppc, ph, pc, h));
+                }
+            }
+            last.insert(act, (pc, h, tok));
+        }
+        bad
+    })
+}
+
+fn with_tie(result: String) -> String {
+    match tie_check() {
+        Some(m) if !result.starts_with("panic") => format!("tie-mismatch:{}", m.replace(['\t', ' '], "_")),
+        _ => result,
+    }
+}
+
 fn stk_dump(instrs: &minijinja::machinery::Instructions<'_>) -> String {
     let mut toks = vec![];
     let mut pc = 0u32;
@@ -932,6 +1003,9 @@ fn worker_loop() {
 
 fn worker(mode: &str) {
     install_hook();
+    if mode != "t2m" {
+        install_opstack_hook();
+    }
     if mode == "t2m" {
         let h = std::thread::Builder::new().stack_size(2 * 1024 * 1024).spawn(worker_loop).unwrap();
         let _ = h.join();
@@ -1129,7 +1203,8 @@ const KWARGS: &[&str] = &[
     "attribute='a.b.c'", "attribute=0", "case_sensitive=true", "reverse=true", "default='d'", "first=true", "blank=true",
     "by='value'", "by='x'", "d=1", "boolean=true", "sep=none", "maxsplit=9223372036854775807", "maxsplit=0",
     "**m", "*xs", "**{}", "*[]", "*big", "**s", "a=1", "**{'é': 1}", "length=1", "length=0", "length=9223372036854775807",
-    "killwords=true", "end='é€'", "leeway=0", "chars='é'", "sep='é'", "d='é'",
+    "killwords=true", "end='é€'", "leeway=0", "chars='é'", "sep='é'", "d='é'", "length=18446744073709551615",
+    "leeway=18446744073709551615", "width=18446744073709551615", "indent=18446744073709551615", "length=3, leeway=18446744073709551615",
 ];
 
 fn add_call_cases(out: &mut Vec<String>, rng: &mut Rng, label: &str, mk: &dyn Fn(&str, &str) -> String, recvs: &[&str], per_recv_args: usize, thorough: bool) {
@@ -1253,6 +1328,27 @@ fn gen_builtin_cases(out: &mut Vec<String>, rng: &mut Rng, thorough: bool) {
     add_call_cases(out, rng, "block:self", &|_r, a| {
         format!("{{% extends 'layout.html' %}}{{% block title %}}{{{{ super({}) }}}}{{{{ self.body({}) }}}}{{% endblock %}}{{% block body %}}b{{% endblock %}}", a, a)
     }, &["x"], per * 2, thorough);
+    // every expression / target position of every statement filled with expressions of every shape
+    let shapes = ["1", "'a'", "a - 1", "a()", "a.b", "[a, b]", "(a, b)", "a[0]", "-a", "not a", "a if b", "a if b else c", "loop", "true",
+        "none", "", "*", "a b", "a|upper", "a is defined", "{'k': a}", "a.b.c", "(a, (b, c))", "ns.x", "a = 1", "1.5", "9223372036854775808"];
+    let stmts: [(&str, &str); 22] = [
+        ("set", "{% set X = 1 %}{{ a }}"), ("setv", "{% set a = X %}{{ a }}"), ("setblock", "{% set X %}v{% endset %}"),
+        ("setfilter", "{% set a | X %}v{% endset %}"), ("for", "{% for X in xs %}{{ a }}{% endfor %}"),
+        ("foriter", "{% for a in X %}{{ a }}{% endfor %}"), ("forif", "{% for a in xs if X %}{{ a }}{% endfor %}"),
+        ("with", "{% with X = 1 %}{{ a }}{% endwith %}"), ("withv", "{% with a = X %}{{ a }}{% endwith %}"),
+        ("import", "{% import 'macros.txt' as X %}{{ a }}"), ("importn", "{% import X as a %}{{ a }}"),
+        ("from", "{% from 'macros.txt' import X %}"), ("fromas", "{% from 'macros.txt' import m as X %}"),
+        ("macro", "{% macro X() %}{% endmacro %}"), ("macroarg", "{% macro mm(X) %}{% endmacro %}{{ mm(1) }}"),
+        ("macrodef", "{% macro mm(p=X) %}{{ p }}{% endmacro %}{{ mm() }}"), ("call", "{% call(X) m() %}{% endcall %}"),
+        ("callx", "{% call X %}{% endcall %}"), ("block", "{% block X %}{% endblock %}"), ("filter", "{% filter X %}v{% endfilter %}"),
+        ("do", "{% do X %}"), ("misc", "{% extends X %}{% include X %}{% autoescape X %}{% endautoescape %}{% if X %}{% elif X %}{% endif %}"),
+    ];
+    for (kind, tmpl) in stmts {
+        for (i, sh) in shapes.iter().enumerate() {
+            let src = format!("{{% set ns = namespace() %}}{{% from 'macros.txt' import m %}}{}", tmpl.replace('X', sh));
+            out.push(format!("t stmtpos:{} {} {}", kind, i % 2, hex(src.as_bytes())));
+        }
+    }
     // string-literal escapes and byte-wise string walkers with multi-byte characters around them
     for (i, lit) in ["\\é", "\\u00e9", "\\uD83D", "\\uD83D\\uDE00", "\\uDE00", "\\u12", "\\u", "\\x41", "\\x", "\\xé", "é\\", "\\",
         "\\u{1F600}", "\\n\\r\\t\\b\\f\\/", "é\\n€", "\\U0001F600", "\\0", "\\uéééé", "𝄞\\u0301", "\\u005C\\u0027"].iter().enumerate() {
